@@ -17,7 +17,7 @@ ASSUMPTIONS = ["differences below 1e-12 are never generated, so the unspecified 
 FLOORS = {'quick': {'reflexive': 300, 'symmetric': 300, 'copy-equal': 300, 'rebuilt-equal': 300, 'differs': 250,
                     'ne-consistent': 600},
           'thorough': {'differs': 2500}}
-MANDATORY_TAGS = ['mut:coord', 'mut:weight', 'mut:knot', 'mut:degree', 'mut:size', 'mut:rational', 'mut:pdim', 'mut:none', 'mut:hom_w', 'via-copy',
+MANDATORY_TAGS = ['mut:coord', 'mut:weight', 'mut:knot', 'mut:degree', 'mut:size', 'mut:rational', 'mut:pdim', 'mut:none', 'mut:hom_w', 'via-copy', 'mixed-precision',
                   'pdim1', 'pdim2', 'pdim3']
 TECHNIQUE = "runtime monitoring: metamorphic oracle on == / != of live shape objects over generated one-component mutations"
 LEVEL_TEXT = ("Each generated pair is compared in both directions with == and != and against the known difference between the "
@@ -36,6 +36,10 @@ def gen(rng, tier, shard, nshards):
         sd = G.rand_shape(rng, pdim, rational=rational, clamped_only=True, normalize=(mut != 'knot_unnorm'),
                           maxextra=4)
         yield {'kind': 'pair', 'sd': sd, 'mut': mut, 'seed': rng.randrange(1 << 30)}
+        if i % 4 == 0:
+            # un-normalised so that the knots are stored as given whatever the precision
+            sd2 = G.rand_shape(rng, pdim, clamped_only=True, normalize=False, maxextra=4)
+            yield {'kind': 'mixed-precision', 'sd': sd2, 'seed': rng.randrange(1 << 30)}
 
 
 def mutate(sd, mut, rng):
@@ -100,7 +104,44 @@ def mutate(sd, mut, rng):
     return b
 
 
+def check_mixed_precision(case, ctx):
+    """two shapes created with different precision= (library routines create their results with the default, so such pairs arise
+    unasked) whose data differ by an amount between the two tolerances: == must still be symmetric"""
+    rng = random.Random(case['seed'])
+    sd = case['sd']
+    pa, pb = rng.sample([5, 8, 12, 18], 2)
+    lo, hi = min(pa, pb), max(pa, pb)
+    delta = 10.0 ** (-rng.uniform(lo + 0.5, min(hi, 15) - 0.5)) if min(hi, 15) - lo >= 1.5 else 10.0 ** (-(lo + 0.7))
+    bsd = copy.deepcopy(sd)
+    what = rng.choice(['coord', 'coord', 'knot']) if any(len(kv) > 2 * (p + 1) for kv, p in zip(sd['kvs'], sd['degrees'])) else 'coord'
+    if what == 'coord':
+        i = rng.randrange(len(bsd['ctrlpts']))
+        j = rng.randrange(len(bsd['ctrlpts'][i]))
+        bsd['ctrlpts'][i][j] += delta * max(1.0, abs(bsd['ctrlpts'][i][j]))
+    else:
+        d = rng.choice([d for d, (kv, p) in enumerate(zip(sd['kvs'], sd['degrees'])) if len(kv) > 2 * (p + 1)])
+        i = rng.randrange(sd['degrees'][d] + 1, len(sd['kvs'][d]) - sd['degrees'][d] - 1)
+        bsd['kvs'][d][i] += delta
+        if not bsd['kvs'][d][i - 1] <= bsd['kvs'][d][i] <= bsd['kvs'][d][i + 1]:
+            raise Reject()
+    a = G.build(sd, precision=pa)
+    b = G.build(bsd, precision=pb)
+    ctx.nontriv(True)
+    ctx.tag('mixed-precision', 'pdim%d' % sd['pdim'])
+    ab, ba = (a == b), (b == a)
+    ctx.check(ab == ba, 'symmetric/mixed-precision', '(a == b) = %r but (b == a) = %r for shapes created with precision=%d and precision=%d '
+              'whose %s differs by %.3g' % (ab, ba, pa, pb, what, delta), what='symmetric')
+    ctx.check((a != b) == (not ab) and (b != a) == (not ba), 'ne-consistent', '!= is not the negation of == (mixed precision)',
+              what='ne-consistent')
+    ctx.check((a == a) is True and (b == b) is True, 'reflexive', 'a == a is not True (precision=%d/%d)' % (pa, pb), what='reflexive')
+    ac, bc = copy.deepcopy(a), copy.deepcopy(b)
+    ctx.check((ac == a) is True and (a == ac) is True and (bc == b) is True, 'copy-equal', 'deepcopy(a) == a is not True (precision=%d/%d)'
+              % (pa, pb), what='copy-equal')
+
+
 def check(case, ctx):
+    if case.get('kind') == 'mixed-precision':
+        return check_mixed_precision(case, ctx)
     rng = random.Random(case['seed'])
     sd, mut = case['sd'], case['mut']
     bsd = mutate(sd, mut, rng)
